@@ -110,6 +110,17 @@ class Trace:
     def fail(self, prop, what, **detail):
         self.fails.setdefault(prop, []).append((what, detail))
 
+    pending_ct = None
+
+    def counters(self, s):
+        return (int(getattr(s, 'n_update_iter', 0)), int(getattr(s, 'n_like_iter', 0)))
+
+    def fill_ct(self, s):
+        """run() updates n_update_iter / n_like_iter after add_bound / add_samples return: read them at the next observation"""
+        if self.pending_ct is not None:
+            self.pending_ct['nui'], self.pending_ct['nli'] = self.counters(s)
+            self.pending_ct = None
+
     def bid(self, b):
         return self.bidmap[id(b)]
 
@@ -155,6 +166,14 @@ class Trace:
             ','.join(str(x) for x in tb), ','.join(str(int(x)) for x in (s.shell_t if len(tp) else []))))
         out.append('ST nlike=%d explored=%s discard=%s' % (int(s.n_like), 'true' if s.explored else 'false',
                                                           'true' if s._discard_exploration else 'false'))
+        # control layer: thresholds now, counters as run() leaves them after this call returns (filled at the next observation)
+        self.fill_ct(s) if label not in ('add_bound', 'add_samples') else None
+        ct = dict(lmin=[self.vid.get([v]) for v in s.shell_log_l_min], nui=None, nli=None)
+        if label in ('add_bound', 'add_samples'):
+            self.pending_ct = ct
+        else:
+            ct['nui'], ct['nli'] = self.counters(s)
+        out.append(ct)
         out.append('END')
         self.lines.append('X')
         self.expected.append((label, out))
@@ -193,6 +212,7 @@ def make_traced(nautilus):
         def _open_iteration(self):
             """first wrapped call of a loop iteration: pending end-of-exploration event, then the guard's oracle bits"""
             tr = self.tr
+            tr.fill_ct(self)
             tr.check_ee(self)
             if tr.in_run and not tr.iter_open:
                 with np.errstate(all='ignore'):
@@ -549,6 +569,7 @@ def run_traced(cfg, max_batches=400):
                 tr.fail('ANY', 'run() raised %s: %s' % (type(e).__name__, str(e)[:200]), traceback=traceback.format_exc()[-1500:], batch=k)
                 tr.in_run = False
                 break
+            tr.fill_ct(s)
             tr.check_ee(s)
             tr.in_run = False
             with np.errstate(all='ignore'):
@@ -616,7 +637,7 @@ def _stat_bytes(s):
 def finish_tables(tr, s):
     """P lines: in_cube, lik id, blob id, contains row for every point id seen."""
     if not tr.pid.rows:
-        tr.table_lines = []
+        tr.table_lines = control_tables(tr, s)
         return
     pts = np.array(tr.pid.rows)
     nb = len(tr.bound_obj)
@@ -644,9 +665,39 @@ def finish_tables(tr, s):
             arr = arr.reshape((1,) + tuple(n for n in arr.shape[1:] if n != 1))
             wid = tr.blob_id(arr[0])
         lines.append('P %d %d %d %d %s' % (j + 1, 1 if cube[j] else 0, lid, wid, ''.join('1' if v else '0' for v in rows[:, j])))
+    lines += control_tables(tr, s)
     tr.table_lines = lines
     tr.contains_rows = rows
     tr.points_arr = pts
+
+
+def control_tables(tr, s):
+    """CC / NI / VR lines of the control layer (the order oracle of the log-likelihood ids) and the final form of the
+    expected CT lines.  Skipped (no CC line, CT lines dropped) if a NaN log-likelihood makes the values unordered."""
+    tr.fill_ct(s)
+    ni = tr.vid.get([-np.inf])
+    vals = np.array([float(r[0]) for r in tr.vid.rows])
+    ok = not np.any(np.isnan(vals))
+    lines = []
+    rank = {}
+    if ok:
+        uniq = np.unique(vals)
+        rk = np.searchsorted(uniq, vals)
+        rank = {i + 1: int(r) for i, r in enumerate(rk)}
+        lines.append('CC %d %d %d %d' % (int(s.n_live), int(s.n_update), int(s.n_like_new_bound), int(s.n_points_min)))
+        lines.append('NI %d' % ni)
+        lines += ['VR %d %d' % (i, r) for i, r in rank.items()]
+    tr.control = ok
+    for label, out in tr.expected:
+        for j, l in enumerate(out):
+            if isinstance(l, dict):
+                if ok:
+                    nui, nli = (l['nui'], l['nli']) if l['nui'] is not None else tr.counters(s)
+                    out[j] = 'CT nui=%d nli=%d lmin=%s' % (nui, nli, ','.join(str(rank[v]) for v in l['lmin']))
+                else:
+                    out[j] = None
+        out[:] = [l for l in out if l is not None]
+    return lines
 
 
 def replay_through_model(tr, tmpdir):
@@ -661,7 +712,7 @@ def replay_through_model(tr, tmpdir):
     # split into X blocks
     blocks, cur, rejects = [], [], []
     for line in out:
-        if line.startswith('REJECT') or line.startswith('RUNBAD'):
+        if line.startswith(('REJECT', 'RUNBAD', 'TRIGBAD', 'CTLREJECT')):
             rejects.append(line)
         elif line.startswith('RUNOK'):
             tr.run_ok = getattr(tr, 'run_ok', 0) + 1
